@@ -516,7 +516,8 @@ Print Assumptions C20_names.
    ==================================================================================== *)
 Require Import Blots.proofs.DisplayNumDischarge1 Blots.proofs.DisplayNumDischarge2
                Blots.proofs.DisplayNumDischarge3 Blots.proofs.DisplayNumDischarge4
-               Blots.proofs.DisplayNumDischarge5 Blots.proofs.DisplayNumDischarge6.
+               Blots.proofs.DisplayNumDischarge5 Blots.proofs.DisplayNumDischarge6
+               Blots.proofs.DisplayNumDischarge7.
 (* the imported proof files open R_scope; restore the scopes of this file *)
 Open Scope char_scope.
 Open Scope Z_scope.
@@ -537,6 +538,21 @@ Proof. exact fmt_prec_exec_value. Qed.
 Check C20_fmt_prec_model_value : forall x n, is_finite x = true -> 0 <= n ->
   denote_plain (fmt_prec_exec x n) = Qmake (cond_Zopp (nsign x) (prec_q x n)) (Z.to_pos (10 ^ n)).
 Print Assumptions C20_fmt_prec_model_value.
+
+(* ---- {:.N$}: ties go to the even digit (round-half-to-even, as core::fmt's exact mode does): when
+        |x| * 10^N is exactly halfway between two integers the even one is printed ---- *)
+Theorem C20_fmt_prec_model_half_even : forall s m e n N D, 0 <= n -> mag_frac m e = (N, D) ->
+  2 * ((N * 10 ^ n) mod D) = D -> Z.even (prec_q (S754_finite s m e) n) = true.
+Proof. exact fmt_prec_exec_half_even. Qed.
+Check C20_fmt_prec_model_half_even : forall s m e n N D, 0 <= n -> mag_frac m e = (N, D) ->
+  2 * ((N * 10 ^ n) mod D) = D -> Z.even (prec_q (S754_finite s m e) n) = true.
+Print Assumptions C20_fmt_prec_model_half_even.
+(* e.g. {:.0} of 2.5 is "2" and {:.1} of 0.25 is "0.2" in the model *)
+Example C20_half_even_samples :
+  fmt_prec_exec (num_of_bits 0x4004000000000000) 0 = tx "2" /\
+  fmt_prec_exec (num_of_bits 0x3fd0000000000000) 1 = tx "0.2" /\
+  fmt_prec_exec (num_of_bits 0x3fd8000000000000) 2 = tx "0.38".
+Proof. vm_compute. repeat split. Qed.
 
 (* ---- {:.N$}: hence the printed decimal is a nearest multiple of 10^-N of x — for EVERY N >= 0
         (C20_accuracy needs N <= 18 only) ---- *)
@@ -670,6 +686,38 @@ Print Assumptions C20_accuracy_exec.
 Print Assumptions C20_names.
 Lemma C20_accuracy_full_holds : C20_accuracy_full.
 Proof. exact display_accurate_exec. Qed.
+
+(* ---- NO PANIC FOR THE EXECUTABLE MODEL: the code as it is (fx = true) returns a text for every valid
+        double under log10_sane alone (C20_no_panic needs a bound on floor(log10 a) for EVERY a; here the
+        two arguments log10 is actually called on are shown to be valid non-zero doubles of known decade) ---- *)
+Theorem C20_total_exec : forall log10, log10_sane log10 ->
+  forall x, valid_binary prec emax x = true ->
+  exists t, format_display_number log10 powi_exec fmt_prec_exec fmt_exp14_exec parse_f64_exec true x = Ok t.
+Proof. exact display_total_exec. Qed.
+Check C20_total_exec : forall log10, log10_sane log10 ->
+  forall x, valid_binary prec emax x = true ->
+  exists t, format_display_number log10 powi_exec fmt_prec_exec fmt_exp14_exec parse_f64_exec true x = Ok t.
+Print Assumptions C20_total_exec.
+Print Assumptions C20_names.
+
+(* ---- SUMMARY for the executable model, code as it is: under log10_sane EVERY valid double is displayed
+        (no panic), as a well-formed numeral, which for finite non-zero x is less than one unit of the 15th
+        significant digit away from x ---- *)
+Theorem C20_exec_complete : forall log10, log10_sane log10 ->
+  forall x, valid_binary prec emax x = true ->
+  exists t,
+    format_display_number log10 powi_exec fmt_prec_exec fmt_exp14_exec parse_f64_exec true x = Ok t /\
+    wf_numeral t = true /\
+    (is_finite x = true -> neqb x nzero = false -> accurate15 x t).
+Proof. exact display_exec_complete. Qed.
+Check C20_exec_complete : forall log10, log10_sane log10 ->
+  forall x, valid_binary prec emax x = true ->
+  exists t,
+    format_display_number log10 powi_exec fmt_prec_exec fmt_exp14_exec parse_f64_exec true x = Ok t /\
+    wf_numeral t = true /\
+    (is_finite x = true -> neqb x nzero = false -> accurate15 x t).
+Print Assumptions C20_exec_complete.
+Print Assumptions C20_names.
 
 (* ---- log10_sane is satisfiable: a log10 returning floor(log10 a) exactly, as a double ---- *)
 Example C20_hyp_log10_satisfiable : log10_sane log10_floor_model.
